@@ -76,18 +76,18 @@ def gen_requests(rng, w, tier, exhaustive_len=24, per_channel=None, slice_exhaus
 
 def take_norm(full, idxs):
     """full[idxs] on a normalised full array."""
-    idxs = [int(i) for i in idxs]
+    idxs = ops.as_indices(idxs)
     k = full[0]
     if k == 'strs':
         return ('strs', [full[1][i] for i in idxs])
     if k == 'rawts':
-        return ('rawts', len(idxs), ''.join(full[2][i * 32:(i + 1) * 32] for i in idxs))
+        return ('rawts', len(idxs), ops.gather(full[2], idxs, 32))
     if k == 'ts-us':
         return ('ts-us', [full[1][i] for i in idxs])
     if k == 'arr':
         n = full[2]
         width = (len(full[3]) // n) if n else 0
-        return ('arr', full[1], len(idxs), ''.join(full[3][i * width:(i + 1) * width] for i in idxs))
+        return ('arr', full[1], len(idxs), ops.gather(full[3], idxs, width))
     if k == 'dict':
         return ('dict', [(sid, take_norm(v, idxs)) for sid, v in full[1]])
     raise ValueError(k)
